@@ -169,7 +169,7 @@ theorem install_keep (cfg : Cfg) (rec : Rec) (hal : AlOK cfg rec) (hrec : KeepSp
       (acts_keep cfg rec hal hrec depth noRec vro hk d _ (record d reason s) (alreadyOK_aset cfg.db _ ha d reason hc) hm1)
   | some sd =>
     obtain ⟨hv, hd⟩ := hsame sd hsp
-    have hskip : ((sd.ver.1 == d.ver.1 || sd.dir == d.dir) && decide (depth > 0)) = true := by simp [hv, hd]
+    have hskip : ((sd.ver.1 == d.ver.1 || (sd.dir == d.dir && d.dir != noneDir)) && decide (depth > 0)) = true := by simp [hv, hd]
     simp only [hskip, if_true]
     exact ⟨fun _ _ _ => rfl, fun _ _ h => h, hm⟩
 
